@@ -541,6 +541,9 @@ func (x *txnCtx) writes(r column.Row, off uint32, op *Op) {
 		if kind, ok = x.avoidWrite(off, col, kind); !ok {
 			continue
 		}
+		if col.Kind == KEnum && (mv.S == enumCollision[0] || mv.S == enumCollision[1]) {
+			w.noteTrigger("enum-hash-collision")
+		}
 		x.issue(r, col, kind == mMerge, mv, wr.Via)
 		x.mt.add(MOp{Kind: kind, Off: off, Col: col.Name, Val: mv})
 	}
